@@ -17,6 +17,13 @@ def mc_pair(alphabet, conns=2, msgs=2, passive=False, dials=1, known_d14=False, 
     return ("MC_Pair", cfg, workers or C.NCPU, timeout)
 
 
+def mc_api(maxcalls=4, ops=("addPeer", "deletePeer", "serve", "close", "getPeer", "listPeers"), workers=None, timeout=3000):
+    cfg = ("SPECIFICATION ASpec\nCONSTANTS\n  Timed = FALSE\n  RecordOut = FALSE\n  KnownD14 = FALSE\n  MaxCalls = %d\n"
+           "  ApiOps = {%s}\nINVARIANT ApiInv\nCHECK_DEADLOCK FALSE\nVIEW AView\n") % (
+        maxcalls, ", ".join('"%s"' % o for o in ops))
+    return ("MC_Api", cfg, workers or C.NCPU, timeout)
+
+
 def has_cb(res, name, n=1):
     return sum(1 for e in syscheck.events_of(res) if e["e"] == "cb" and e["n"] == name) >= n
 
@@ -99,7 +106,8 @@ prop("C10",
      scripts=lambda tier, rnd: S.stop_points() + S.gated() + S.api_races() + S.pm_busy() + S.stop_dial_race(12 if tier == "thorough" else 3) +
      S.stop_everywhere(rnd, 400 if tier == "thorough" else 60),
      mc=lambda tier: [mc_pair(["openLo", "ka"])] if tier == "quick" else
-     [mc_pair(["openLo", "ka", "upd"], dials=2), mc_pair(["openHi", "ka", "notif"], dials=2)],
+     [mc_pair(["openLo", "ka", "upd"], dials=2), mc_pair(["openHi", "ka", "notif"], dials=2),
+      mc_api(5, ops=("addPeer", "deletePeer", "serve", "close"))],
      nontrivial=lambda s, r: any(e["e"] == "ret" and e["n"] in ("close", "deletePeer") for e in syscheck.events_of(r)),
      end_oracles={"leak", "unclosed", "overlap"},
      rule="Close / DeletePeer issued at every quiescent prefix of connection scripts (all FSM states, both directions, collision, "
@@ -187,7 +195,7 @@ prop("C13",
 prop("C20",
      pure=["registry"],
      scripts=lambda tier, rnd: S.registry(rnd, 60 if tier == "quick" else 600) + S.api_races(),
-     mc=lambda tier: [mc_pair(["openLo", "ka"], conns=1, msgs=2)],
+     mc=lambda tier: [mc_api(4 if tier == "quick" else 5)],
      nontrivial=lambda s, r: sum(1 for e in syscheck.events_of(r) if e["e"] == "ret") >= 3,
      rule="random registry operation sequences (AddPeer/DeletePeer/GetPeer/ListPeers/Serve/Close, inbound handshakes) before, "
           "during and after Serve; every return value must be the one Server's specification gives")
